@@ -77,6 +77,7 @@ def make_case(seed, dm='lua', size=None):
         ch, hist = (C.gen_done_chart, C.gen_hist_chart, C.gen_conflict_chart)[seed % 3](-seed)      # done.state / history / conflict family
     else:
         ch, hist = C.gen_chart(seed, data=True, errors=False, dataexpr=False, rich=True)
+        if seed % 5 == 1: C.substring_ids(ch)                     # state ids that are prefixes of one another
     if size: pad_chart(ch, rng, size)
     return ch, hist
 
